@@ -24,3 +24,63 @@ Theorem C06_same_verdict_spec : forall r c, same_verdict r c = true ->
   (r = Some RJetFailed <-> c = -38).
 Proof. exact same_verdict_spec. Qed.
 Print Assumptions C06_same_verdict_spec.
+
+(* ================================================================== phase 2: the Coq semantics as third party
+   For programs 1 -> 1 over the jets specified in Jets/JetSpec.v the verdict of Core/Sem.v `eval` is compared with
+   both evaluators (tools/props/c06.py, three-way).  The statements below specialise C05's exec_correct (the lemma
+   exec_master_noinput pinned as C05_exec_correct_noinput) to such programs: they are about the MODEL of the Rust
+   machine (Core/Machine.v), for any jet semantics that respects the jets' types; the C evaluator is not modelled
+   and stays tied by comparison only. *)
+From RS Require Import Lib.Outcome Ty.Ty Core.Prog Core.Term Core.Typing Core.Sem Core.Bounds Core.Limits Core.Machine
+  Core.MachineCorrect Jets.JetSpec Cdiff.EvalRef.
+Local Open Scope N_scope.
+
+(* the Rust machine model returns success iff eval does *)
+Theorem C06_machine_succeeds_iff_eval : forall prof jet_ty jet_cost jet_sem t,
+  jets_typed jet_ty jet_sem -> typed jet_ty t One One ->
+  check_program prof (bw One) (bw One) (bounds jet_cost t) = Ok tt ->
+  forall m0, length m0 = N.to_nat (machine_cells jet_cost t) ->
+    ((exists st bits, machine_exec prof jet_cost jet_sem t m0 None = Ok (st, bits)) <->
+     eval jet_sem t SU = ROk SU).
+Proof. exact machine_succeeds_iff_eval. Qed.
+Print Assumptions C06_machine_succeeds_iff_eval.
+
+(* ... and fails with ReachedPrunedBranch(cmr) / ReachedFailNode / JetFailed iff eval fails with the assertion on
+   that hidden CMR / that fail node / a jet failure *)
+Theorem C06_machine_fails_iff_eval : forall prof jet_ty jet_cost jet_sem t,
+  jets_typed jet_ty jet_sem -> typed jet_ty t One One ->
+  check_program prof (bw One) (bw One) (bounds jet_cost t) = Ok tt ->
+  forall m0, length m0 = N.to_nat (machine_cells jet_cost t) ->
+  forall x,
+    ((exists st, machine_exec prof jet_cost jet_sem t m0 None = Err (x, st)) <->
+     (exists e, eval jet_sem t SU = RErr e /\ x = err_of e)).
+Proof. exact machine_fails_iff_eval. Qed.
+Print Assumptions C06_machine_fails_iff_eval.
+
+(* no other outcome exists once for_program accepted the program: no panic, no fuel, no limit error, no InputWrongType *)
+Theorem C06_machine_total : forall prof jet_ty jet_cost jet_sem t,
+  jets_typed jet_ty jet_sem -> typed jet_ty t One One ->
+  check_program prof (bw One) (bw One) (bounds jet_cost t) = Ok tt ->
+  forall m0, length m0 = N.to_nat (machine_cells jet_cost t) ->
+    match machine_exec prof jet_cost jet_sem t m0 None with
+    | Ok _ => True
+    | Err (ReachedPrunedBranch _, _) | Err (ReachedFailNode _, _) | Err (EJetFailed, _) => True
+    | _ => False
+    end.
+Proof. exact machine_total. Qed.
+Print Assumptions C06_machine_total.
+
+(* instance: the 306 specified Core jets respect their types, so the three statements apply to every program over
+   them (jet_ty := jet_spec_ty, jet_sem := jet_spec) *)
+Theorem C06_specified_jets_success_iff : forall prof jet_cost t,
+  typed jet_spec_ty t One One ->
+  check_program prof (bw One) (bw One) (bounds jet_cost t) = Ok tt ->
+  forall m0, length m0 = N.to_nat (machine_cells jet_cost t) ->
+    ((exists st bits, machine_exec prof jet_cost jet_spec t m0 None = Ok (st, bits)) <->
+     eval jet_spec t SU = ROk SU).
+Proof. exact specified_jets_success_iff. Qed.
+Print Assumptions C06_specified_jets_success_iff.
+
+Theorem C06_error_kinds_distinct : forall e1 e2, err_of e1 = err_of e2 -> e1 = e2.
+Proof. exact err_of_inj. Qed.
+Print Assumptions C06_error_kinds_distinct.
